@@ -1609,6 +1609,12 @@ class PMux(_Component):
         v = abs(vi[pinp]) - r * io
         if phase_conf and phase not in phase_conf:
             return 0.0, STATE_OFF
+        if not (v > 0.0):
+            raise ValueError(
+                "Unstable system: PMux component '{}' has zero output voltage".format(
+                    self._params["name"]
+                )
+            )
         if vi[pinp] >= 0.0:
             return v, STATE_DEFAULT
         return -v, STATE_DEFAULT
